@@ -23,7 +23,7 @@ import subprocess
 
 PROPERTY = 'C11'
 LEVEL = 'exploration'
-RULE = ("modules of 3..6 doctests drawn from 16 body kinds (bind / read a shared name, rebind a module global, leave SKIP, "
+RULE = ("modules of 3..6 doctests drawn from 19 body kinds (bind / read a shared name, rebind a module global, leave SKIP, "
         "unmet REQUIRES, report style or matching flags on, need default flags, replace sys.stdout, set warning filters to "
         "error, emit a warning, fail after unmatched output, fail by output, bind a name and then fail by exception / by output, env-switch dependent output/exception/want); "
         "directed histories first (every doctest twice on the same object; every switch-dependent doctest with the switch "
@@ -60,6 +60,10 @@ BODIES = [
     ('switch_bind', ['>>> import os', '>>> T.append("{id}")', '>>> if os.environ.get("XV_SW") == "A": LEFT{id} = 1',
                      '>>> print("LEFT{id}" in dir())', 'False' if False else '{sw_left}']),
     ('gotwant_fail', ['>>> T.append("{id}")', '>>> print("a")', 'b']),
+    # nothing runs at all: skipped on every run, also on the n-th run of the same object
+    ('all_skipped', ['>>> # xdoctest: +SKIP', '>>> T.append("{id}")', '>>> print("never")', 'BOGUS']),
+    ('all_unmet', ['>>> # xdoctest: +REQUIRES(module:nx_zz_{id})', '>>> T.append("{id}")']),
+    ('half_skipped', ['>>> T.append("{id}")', '>>> print("x{id}")  # xdoctest: +SKIP', 'BOGUS']),
     # binds a name and then FAILS: a re-run of the same object must not find the name either
     ('bind_then_raise', ['>>> try:', '...     OWNNAME', '... except NameError:', '...     print("fresh")', '... else:',
                          '...     print("stale")', '>>> OWNNAME = 1', '>>> T.append("{id}")', '>>> raise ValueError("v{id}")']),
@@ -144,7 +148,8 @@ def observe(e, sw):
     except BaseException as ex:
         r = 'RAISED:' + type(ex).__name__
     mod = sys.modules.get(e.modname)
-    delta = list(mod.T[t0:]) if mod is not None and hasattr(mod, 'T') else None
+    # (a doctest in which nothing runs never imports its module: no module, no events)
+    delta = list(mod.T[t0:]) if mod is not None and hasattr(mod, 'T') else []
     try:
         logged = [v for v in e.logged_stdout.values()]
     except Exception:
@@ -220,6 +225,9 @@ def check_module(ctx, idx, seed):
         histories = []
         for n in names:
             histories.append(('same-object-twice', [(n, 'B', False), (n, 'B', False)]))
+            if kind_of[n] in ('all_skipped', 'all_unmet', 'half_skipped', 'leave_skip', 'leave_req'):
+                # bookkeeping that grows with every run of the same object shows only after several runs
+                histories.append(('same-object-many', [(n, 'B', False)] * 5))
         for n in names:
             if kind_of[n] in SWITCHED:
                 histories.append(('switch-AB', [(n, 'A', False), (n, 'B', False)]))
